@@ -1,85 +1,35 @@
 ---------------------------- MODULE TdfTableInd ----------------------------
 (***************************************************************************)
-(* Table-only abstraction of the container for an UNBOUNDED-size argument  *)
-(* with Apalache: the jump table of N = 14 slots as three integer          *)
-(* functions (type, offset, size) and the file length; no payload          *)
-(* identities, no extents.  AddT / RemT are TdfFile!AddFile / RemoveFile   *)
-(* restricted to the table (MCSession checks with TLC that they agree,     *)
-(* invariant InvTableAgree).                                               *)
-(*                                                                         *)
-(* IndInv is inductive:  IndInit => IndInv  and  IndInv /\ Next => IndInv' *)
-(* are discharged by Apalache for arbitrary block sizes and offsets        *)
-(* (bin/apalache-ind).  IndInv implies the structural soundness of C03     *)
-(* (ranges inside the file, no overlap, unused size zero) for every        *)
-(* history of adds and removes on any file of the explored family, for the *)
-(* table length the library itself creates.                                *)
+(* Unbounded-size argument for C03 with Apalache (bin/apalache-ind):       *)
+(* the transition system whose steps are TdfTableRel!AddRel / RemRel, for  *)
+(* the table length the library creates (N = 14) and ARBITRARY integer     *)
+(* offsets and sizes.  IndInv is inductive:                                *)
+(*    IndInit => IndInv,   IndInv /\ Next => IndInv'   (--length=1)        *)
+(* and IndInv => EndFitsInv (--length=0), which shows that the offset the  *)
+(* code gives the new unused slot (the maximum end of what is left) is one *)
+(* of the values RemRel admits.  IndInv implies the structural soundness   *)
+(* of C03 (ranges inside the file, no overlap, unused size zero).          *)
 (***************************************************************************)
 EXTENDS Integers
 
 N == 14
 TE == 64 + 288 * N
-Slots == 1..N
 
 VARIABLES
-  \* @type: Int -> Int;
-  ty,
-  \* @type: Int -> Int;
-  off,
-  \* @type: Int -> Int;
-  sz,
-  \* @type: Int;
-  flen
+  \* @type: {ty: Int -> Int, off: Int -> Int, sz: Int -> Int, flen: Int};
+  x
 
-Live(i) == ty[i] # 0
-EndOf(i) == off[i] + sz[i]
+R == INSTANCE TdfTableRel WITH N <- N, TE <- TE
 
-TypeOK == /\ ty \in [Slots -> 0..16] /\ off \in [Slots -> Int] /\ sz \in [Slots -> Int] /\ flen \in Int
+Tables == [ty : [1..N -> 0..16], off : [1..N -> Int], sz : [1..N -> Int], flen : Int]
+TypeOK == x \in Tables
+IndInv == TypeOK /\ R!TInv(x)
+IndInit == x \in Tables /\ R!TInv(x)
+EndFitsInv == R!EndFits(x)
 
-\* C03 on the table
-Sound == /\ \A i \in Slots : Live(i) => (sz[i] > 0 /\ TE <= off[i] /\ EndOf(i) <= flen)
-         /\ \A i \in Slots : \A j \in Slots : (i # j /\ Live(i) /\ Live(j)) => (EndOf(i) <= off[j] \/ EndOf(j) <= off[i])
-         /\ \A i \in Slots : ~Live(i) => sz[i] = 0
-\* the explored family: free slots point at or beyond the end of every live range, inside the file
-Family == /\ \A i \in Slots : \A j \in Slots : (~Live(i) /\ Live(j)) => EndOf(j) <= off[i]
-          /\ \A i \in Slots : ~Live(i) => (TE <= off[i] /\ off[i] <= flen)
-          /\ flen >= TE
-Unique == \A i \in Slots : \A j \in Slots : (Live(i) /\ Live(j) /\ ty[i] = ty[j]) => i = j
-
-IndInv == TypeOK /\ Sound /\ Family /\ Unique
-
-\* every well-formed file of the family is an initial state
-IndInit == IndInv
-
-\* add: first unused slot k, all later slots unused; entry at off[k]; later slots re-pointed
-AddT(t, s) ==
-  /\ t \in 1..16 /\ s > 0
-  /\ \A i \in Slots : ty[i] # t
-  /\ \E k \in Slots :
-       /\ ~Live(k) /\ \A j \in Slots : j < k => Live(j)
-       /\ \A j \in Slots : j > k => ~Live(j)
-       /\ ty' = [ty EXCEPT ![k] = t]
-       /\ sz' = [sz EXCEPT ![k] = s]
-       /\ off' = [i \in Slots |-> IF i > k THEN off[k] + s ELSE off[i]]
-       /\ flen' = IF off[k] + s > flen THEN off[k] + s ELSE flen
-
-\* remove: entry k deleted, later table entries move up one slot, every entry stored behind
-\* the removed block shifted down by its size, new unused slot at the end of the remaining data
-RemT(t) ==
-  \E k \in Slots :
-    /\ ty[k] = t /\ t # 0
-    /\ LET Src(i) == IF i < k THEN i ELSE i + 1
-           Down(o) == IF o > off[k] THEN o - sz[k] ELSE o
-       IN /\ ty' = [i \in Slots |-> IF i = N THEN 0 ELSE ty[Src(i)]]
-          /\ sz' = [i \in Slots |-> IF i = N THEN 0 ELSE sz[Src(i)]]
-          /\ \E newoff \in Int :
-               /\ \A i \in Slots : i < N => newoff >= Down(off[Src(i)]) + sz[Src(i)]
-               /\ (\A i \in Slots : i < N => FALSE) \/ newoff >= TE
-               /\ (\E i \in Slots : i < N /\ newoff = Down(off[Src(i)]) + sz[Src(i)]) \/ newoff = TE
-               /\ off' = [i \in Slots |-> IF i = N THEN newoff ELSE Down(off[Src(i)])]
-          /\ flen' = flen - sz[k]
-
-Next == \/ \E t \in 1..16 : \E s \in 1..1000000000 : AddT(t, s)
-        \/ \E t \in 1..16 : RemT(t)
-
+Next == \E y \in Tables :
+          /\ \/ \E t \in 1..16 : \E s \in 1..2000000000 : R!AddRel(x, y, t, s)
+             \/ \E t \in 1..16 : R!RemRel(x, y, t)
+          /\ x' = y
 Init == IndInit
 =============================================================================
